@@ -175,7 +175,16 @@ func (w *rnsWorld) drawCanon(rt *rapid.T) string {
 }
 
 func drawCoin(rt *rapid.T, label string) sdk.Coin {
-	denom := rapid.SampledFrom([]string{"ujkl", "ujkl", "uatom"}).Draw(rt, label+"-denom")
+	denom := rapid.SampledFrom([]string{"ujkl", "ujkl", "uatom", "aeth"}).Draw(rt, label+"-denom")
+	if denom == "aeth" {
+		// an 18-decimal denomination (bridged vouchers): a handful of tokens is more base units than an int64 holds
+		big := rapid.SampledFrom([]string{"1", "9223372036854775807", "9223372036854775808", "10000000000000000000", "25000000000000000000", "340282366920938463463374607431768211456"}).Draw(rt, label+"-bigAmt")
+		amt, ok := sdk.NewIntFromString(big)
+		if !ok {
+			panic("bad literal " + big)
+		}
+		return sdk.NewCoin(denom, amt)
+	}
 	amt := rapid.OneOf(rapid.Int64Range(0, 20), rapid.Int64Range(1, 5_000_000)).Draw(rt, label+"-amt")
 	return sdk.NewInt64Coin(denom, amt)
 }
